@@ -29,6 +29,7 @@ class Ref:
         s.pos = 0
         s.issued_upto = 0
         s._next_gid = 100
+        s.listed = {}
 
     @classmethod
     def from_snapshot(cls, snap, N):
@@ -46,6 +47,8 @@ class Ref:
                 if x['persistence'] == 1:
                     s.unread.add(v)
         s.pos = snap['next_v']
+        # a member list may be longer than the tags say in an over-approximated pre-state (C07's 17th member)
+        s.listed = {b: len(m) for b, m in enumerate(snap['branches'])}
         return s
 
     def members(s, g):
@@ -91,11 +94,11 @@ class Ref:
                 s._next_gid += 1
                 s.group[v1] = s.group[v2] = s._next_gid
             elif g1 is None:
-                if len(s.members(g2)) >= NSLOT:
+                if max(len(s.members(g2)), s.listed.get(g2, 0)) >= NSLOT:
                     raise Limit('more than 16 members')
                 s.group[v1] = g2
             elif g2 is None:
-                if len(s.members(g1)) >= NSLOT:
+                if max(len(s.members(g1)), s.listed.get(g1, 0)) >= NSLOT:
                     raise Limit('more than 16 members')
                 s.group[v2] = g1
             return None
